@@ -329,6 +329,18 @@ def probes_uniform(ctx, scale):
     nsol = 0
     for cfg in fixed:
         nsol += probe_uniform_cfg(ctx, cfg)
+    # very short but non-zero legs (nanometres) at small coordinates: far above the rounding level of the coordinates
+    # (eps x 1 m = 2e-16 m), so the directions are well defined unit vectors
+    for _ in range(ctx.n(12, 200) * scale):
+        lo = -float(rng.choice([0.5, 1.0, 0.25]))
+        z0 = round(rng.uniform(lo * 0.9, lo * 0.1), 3)
+        d = 10 ** rng.uniform(-9.0, -7.5)
+        az, el = rng.uniform(-math.pi, math.pi), rng.uniform(-1.2, 1.2)
+        f = [float(rng.choice([0.0, 0.125, -0.5])), float(rng.choice([0.0, 0.25])), z0]
+        t = [f[0] + d * math.cos(el) * math.cos(az), f[1] + d * math.cos(el) * math.sin(az), z0 + d * math.sin(el)]
+        cfg = {"ice": {"n": 1.5, "lo": lo, "hi": 0.0, "above": 1.0, "below": 1.8}, "from": f, "to": [float(x) for x in t], "max_reflections": rng.choice([0, 1])}
+        ctx.case(key=("probe_uniform_short", json.dumps(cfg, sort_keys=True)), sample={"probe": "uniform_short_leg", "cfg": cfg})
+        nsol += probe_uniform_cfg(ctx, cfg)
     for _ in range(ctx.n(150, 4000) * scale):
         cfg = rand_uniform_cfg(rng)
         ctx.case(key=("probe_uniform", json.dumps(cfg, sort_keys=True)), nontrivial=cfg["max_reflections"] > 0,
